@@ -4,6 +4,7 @@ pub mod c03;
 pub mod c04;
 pub mod c05;
 pub mod c06;
+pub mod c07;
 pub mod c08;
 pub mod c09;
 pub mod c10;
@@ -28,6 +29,7 @@ pub fn get(id: &str, tier: Tier) -> Option<Monitor> {
         "C04" => Some(c04::monitor(tier)),
         "C05" => Some(c05::monitor(tier)),
         "C06" => Some(c06::monitor(tier)),
+        "C07" => Some(c07::monitor(tier)),
         "C08" => Some(c08::monitor(tier)),
         "C09" => Some(c09::monitor(tier)),
         "C10" => Some(c10::monitor(tier)),
